@@ -56,7 +56,7 @@ theorem src_bc_current (c : Gen.BlockCursor) (h : OKBlock c.block) (r : Option (
       rw [← hr, this]
 
 theorem src_bc_first (c c' : Gen.BlockCursor) (h : OKBlock c.block) (r : Option (Bytes × Bytes))
-    (hr : Gen.BlockCursor.move_on_first c = .ok (r, c')) : (toBC c', r) = (toBC c).first := by
+    (hr : Gen.BlockCursor.move_on_first c = .ok (r, c')) : (toBC c', r) = (toBC c).first ∧ c'.block = c.block := by
   unfold Gen.BlockCursor.move_on_first at hr
   simp only [bind, Except.bind, pure, Except.pure, Gen.Block.index_offsets_fn] at hr
   generalize hc1 : ({ block := c.block, current_offset := Option.map (fun off => off) c.block.index_offsets.head? } : Gen.BlockCursor) = c1 at hr
@@ -67,6 +67,7 @@ theorem src_bc_first (c c' : Gen.BlockCursor) (h : OKBlock c.block) (r : Option 
     obtain ⟨hx, hc'⟩ := hr
     subst hx hc'
     have hb : c1.block = c.block := by rw [← hc1]
+    refine ⟨?_, hb⟩
     have := src_bc_current c1 (by rw [hb]; exact h) x hcur
     unfold Grenad.BlockCursor.first
     rw [this]
@@ -75,7 +76,7 @@ theorem src_bc_first (c c' : Gen.BlockCursor) (h : OKBlock c.block) (r : Option 
     rw [this]
 
 theorem src_bc_next (c c' : Gen.BlockCursor) (h : OKBlock c.block) (r : Option (Bytes × Bytes))
-    (hr : Gen.BlockCursor.move_on_next c = .ok (r, c')) : (toBC c', r) = (toBC c).next := by
+    (hr : Gen.BlockCursor.move_on_next c = .ok (r, c')) : (toBC c', r) = (toBC c).next ∧ c'.block = c.block := by
   unfold Gen.BlockCursor.move_on_next at hr
   unfold Grenad.BlockCursor.next
   cases ho : c.current_offset with
@@ -88,7 +89,8 @@ theorem src_bc_next (c c' : Gen.BlockCursor) (h : OKBlock c.block) (r : Option (
       simp only [hf, Except.ok.injEq, Prod.mk.injEq] at hr
       obtain ⟨h1, h2⟩ := hr
       subst h1 h2
-      have := src_bc_first c c1 h r1 hf
+      obtain ⟨this, hbb⟩ := src_bc_first c c1 h r1 hf
+      refine ⟨?_, hbb⟩
       simp only [toBC, ho] at this ⊢
       exact this
   | some off =>
@@ -106,6 +108,7 @@ theorem src_bc_next (c c' : Gen.BlockCursor) (h : OKBlock c.block) (r : Option (
         obtain ⟨h1, h2⟩ := hr
         subst h1 h2
         have : Grenad.Block.entryAt (toBC c).block off = none := hx.symm
+        refine ⟨?_, rfl⟩
         rw [this]
       | some e =>
         obtain ⟨k, v, nxt⟩ := e
@@ -118,6 +121,7 @@ theorem src_bc_next (c c' : Gen.BlockCursor) (h : OKBlock c.block) (r : Option (
           obtain ⟨h1, h2⟩ := hr
           subst h1 h2
           have hb : c1.block = c.block := by rw [← hc1]
+          refine ⟨?_, hb⟩
           have hy := src_bc_current c1 (by rw [hb]; exact h) y hcur
           have : Grenad.Block.entryAt (toBC c).block off = some (k, v, nxt) := hx.symm
           rw [this, hy]
@@ -188,7 +192,7 @@ theorem bind_ok {α β} {x : M α} {f : α → M β} {y : β} (h : Except.bind x
   | ok a => exact ⟨a, rfl, h⟩
 
 theorem src_bc_last (c c' : Gen.BlockCursor) (h : OKBlock c.block) (r : Option (Bytes × Bytes))
-    (hr : Gen.BlockCursor.move_on_last c = .ok (r, c')) : (toBC c', r) = (toBC c).last := by
+    (hr : Gen.BlockCursor.move_on_last c = .ok (r, c')) : (toBC c', r) = (toBC c).last ∧ c'.block = c.block := by
   unfold Gen.BlockCursor.move_on_last at hr
   simp only [bind, pure] at hr
   obtain ⟨offs, hoffs', hr⟩ := bind_ok hr
@@ -208,6 +212,7 @@ theorem src_bc_last (c c' : Gen.BlockCursor) (h : OKBlock c.block) (r : Option (
     obtain ⟨h1, h2⟩ := hr
     subst h1 h2
     have hy := src_bc_current { block := c.block, current_offset := none } h y hcur
+    refine ⟨?_, rfl⟩
     rw [hy]
     rfl
   | some off =>
@@ -221,6 +226,7 @@ theorem src_bc_last (c c' : Gen.BlockCursor) (h : OKBlock c.block) (r : Option (
       simp only [Except.pure, Except.ok.injEq, Prod.mk.injEq] at hr
       obtain ⟨h1, h2⟩ := hr
       subst h1 h2
+      refine ⟨?_, hb⟩
       have hy := src_bc_current st.1 (by rw [hb]; exact h) y hcur
       simp only [List.length_range'] at hoff
       rw [hlen]
@@ -373,7 +379,7 @@ theorem binarySearch_eq (l : List Nat) (x : Nat) :
 
 theorem src_bc_prev (c c' : Gen.BlockCursor) (h : OKBlock c.block) (r : Option (Bytes × Bytes))
     (hr : Gen.BlockCursor.move_on_prev c = .ok (r, c')) :
-    (toBC c', r) = BinSearch.prevBS binSearchBy' (toBC c) := by
+    (toBC c', r) = BinSearch.prevBS binSearchBy' (toBC c) ∧ c'.block = c.block := by
   unfold Gen.BlockCursor.move_on_prev at hr
   simp only [bind, pure] at hr
   unfold BinSearch.prevBS
@@ -387,7 +393,8 @@ theorem src_bc_prev (c c' : Gen.BlockCursor) (h : OKBlock c.block) (r : Option (
     simp only [Except.pure, Except.ok.injEq, Prod.mk.injEq] at hr
     obtain ⟨h1, h2⟩ := hr
     subst h1 h2
-    have := src_bc_last c c1 h r1 hlast
+    obtain ⟨this, hbb⟩ := src_bc_last c c1 h r1 hlast
+    refine ⟨?_, hbb⟩
     simp only [toBC, ho] at this ⊢
     exact this
   | some cur =>
@@ -420,7 +427,7 @@ theorem src_bc_prev (c c' : Gen.BlockCursor) (h : OKBlock c.block) (r : Option (
         simp only [Option.map_none, Except.pure, Except.ok.injEq, Prod.mk.injEq] at hr
         obtain ⟨h1, h2⟩ := hr
         subst h1 h2
-        rfl
+        exact ⟨rfl, rfl⟩
       | some ent =>
         obtain ⟨curKey, v, nx⟩ := ent
         simp only [Option.map_some] at hr
@@ -442,6 +449,7 @@ theorem src_bc_prev (c c' : Gen.BlockCursor) (h : OKBlock c.block) (r : Option (
           simp only [Except.pure, Except.ok.injEq, Prod.mk.injEq] at hr
           obtain ⟨h1, h2⟩ := hr
           subst h1 h2
+          refine ⟨?_, hb⟩
           have hy := src_bc_current st.1 (by rw [hb]; exact h) y hcur
           simp only [List.length_range'] at hoffst
           rw [hlen]
@@ -463,5 +471,239 @@ theorem src_bc_prev (c c' : Gen.BlockCursor) (h : OKBlock c.block) (r : Option (
           rfl
         · have : st.2.2 = false := by simpa using hfin
           simp [this, throw, throwThe, MonadExceptOf.throw, Except.bind] at hr
+
+/-! ### `move_on_key_lower_than_or_equal_to` -/
+
+theorem binSearchBaseM_ok {α} (cmpM : α → M Ordering) (cmp : α → Ordering)
+    (hc : ∀ x v, cmpM x = .ok v → v = cmp x) (l : List α) : ∀ f b s r,
+    binSearchBaseM cmpM l f b s = .ok r → r = binSearchBase cmp l f b s := by
+  intro f
+  induction f with
+  | zero => intro b s r h; simp [binSearchBaseM, pure, Except.pure] at h; simp [binSearchBase, h]
+  | succ f ih =>
+    intro b s r h
+    simp only [binSearchBaseM, binSearchBase] at h ⊢
+    split at h
+    · rename_i hs
+      simp only [hs, if_true]
+      cases hl : l[b + s / 2]? with
+      | none => simp [hl, pure, Except.pure] at h; simp [h]
+      | some x =>
+        simp only [hl, bind, Except.bind] at h
+        cases hcx : cmpM x with
+        | error e => simp [hcx] at h
+        | ok v =>
+          simp only [hcx] at h
+          have := hc x v hcx
+          subst this
+          exact ih _ _ _ h
+    · rename_i hs
+      simp only [hs, if_false]
+      simp [pure, Except.pure] at h
+      exact h.symm
+
+theorem binSearchByM_ok {α} (cmpM : α → M Ordering) (cmp : α → Ordering)
+    (hc : ∀ x v, cmpM x = .ok v → v = cmp x) (l : List α) (r : Except Nat Nat)
+    (h : binSearchByM cmpM l = .ok r) : r = binSearchBy' cmp l := by
+  unfold binSearchByM at h
+  unfold binSearchBy'
+  split at h
+  · rename_i h0; simp [pure, Except.pure] at h; simp [h0, h]
+  · rename_i h0
+    simp only [h0, if_false]
+    obtain ⟨base, hb, h⟩ := bind_ok h
+    have hbase := binSearchBaseM_ok cmpM cmp hc l _ _ _ _ hb
+    subst hbase
+    cases hl : l[binSearchBase cmp l (l.length + 1) 0 l.length]? with
+    | none => simp [hl, pure, Except.pure] at h; simp [h]
+    | some x =>
+      simp only [hl] at h ⊢
+      obtain ⟨v, hv, h⟩ := bind_ok h
+      have := hc x v hv
+      subst this
+      cases hcx : cmp x <;> simp [hcx, pure, Except.pure] at h ⊢ <;> exact h.symm
+
+theorem cmpOptBytes_eq (a b : Option Bytes) : R.cmpOptBytes a b = compareOption Grenad.cmpBytes a b := by
+  cases a <;> cases b <;> simp [R.cmpOptBytes, compareOption, R.cmpBytes, Grenad.cmpBytes, compareOfLessAndEq]
+
+theorem src_bc_le (c c' : Gen.BlockCursor) (h : OKBlock c.block) (key : Bytes) (r : Option (Bytes × Bytes))
+    (hr : Gen.BlockCursor.move_on_key_lower_than_or_equal_to c key = .ok (r, c')) :
+    (toBC c', r) = BinSearch.leBS binSearchBy' (toBC c) key ∧ c'.block = c.block := by
+  unfold Gen.BlockCursor.move_on_key_lower_than_or_equal_to at hr
+  simp only [bind, pure] at hr
+  unfold BinSearch.leBS
+  have hlen : (toBC c).block.payload.length = c.block.payload_size := by
+    simp [toBC, toBlock]; exact Nat.min_eq_left h.hp
+  obtain ⟨offs, hoffs', hr⟩ := bind_ok hr
+  simp only [Gen.Block.index_offsets_fn, pure, Except.pure, Except.ok.injEq] at hoffs'
+  subst hoffs'
+  have hoffs : (toBC c).block.offsets = c.block.index_offsets := rfl
+  obtain ⟨res, hsearch, hr⟩ := bind_ok hr
+  -- the monadic search with the translated comparison is the pure loop with the model's comparison
+  have hres : res = binSearchBy' (BinSearch.cmpKey (toBC c).block key) c.block.index_offsets := by
+    unfold binarySearchByKeyM at hsearch
+    apply binSearchByM_ok _ _ _ _ _ hsearch
+    intro off v hv
+    simp only [bind, Except.bind, pure, Except.pure] at hv
+    cases he : Gen.Block.entry_at c.block off with
+    | error e => simp [he] at hv
+    | ok e =>
+      have hx := entry_at_ok c.block h off e he
+      simp only [he, Except.ok.injEq] at hv
+      rw [← hv, cmpOptBytes_eq]
+      unfold BinSearch.cmpKey BinSearch.keyAt
+      rw [show (toBC c).block = toBlock c.block from rfl, ← hx]
+  simp only [hoffs]
+  rw [← hres]
+  cases res with
+  | ok i =>
+    simp only [foundAt] at hr ⊢
+    obtain ⟨o, hidx, hr⟩ := bind_ok hr
+    have ho : o = c.block.index_offsets.getD i 0 := by
+      simp only [idx] at hidx
+      cases hg : c.block.index_offsets[i]? with
+      | none => simp [hg, throw, throwThe, MonadExceptOf.throw] at hidx
+      | some y =>
+        simp [hg, pure, Except.pure] at hidx
+        simp [List.getD_eq_getElem?_getD, hg, hidx]
+    obtain ⟨y, hcur, hr⟩ := bind_ok hr
+    simp only [Except.pure, Except.ok.injEq, Prod.mk.injEq] at hr
+    obtain ⟨h1, h2⟩ := hr
+    subst h1 h2
+    have hy := src_bc_current { block := c.block, current_offset := some o } h y hcur
+    refine ⟨?_, rfl⟩
+    rw [hy, ho]
+    rfl
+  | error i =>
+    simp only [foundAt] at hr ⊢
+    by_cases hi0 : i = 0
+    · subst hi0
+      simp only [checkedSub, Option.bind] at hr
+      simp at hr
+      obtain ⟨y, hcur, hr⟩ := bind_ok hr
+      simp only [Except.pure, Except.ok.injEq, Prod.mk.injEq] at hr
+      obtain ⟨h1, h2⟩ := hr
+      subst h1 h2
+      have hy := src_bc_current { block := c.block, current_offset := none } h y hcur
+      refine ⟨?_, rfl⟩
+      rw [hy]
+      rfl
+    · have hcs : checkedSub i 1 = some (i - 1) := by simp [checkedSub]; omega
+      simp only [hcs, Option.bind, hi0, Bool.false_eq_true, if_false] at hr ⊢
+      cases hg : c.block.index_offsets[i - 1]? with
+      | none =>
+        simp only [hg] at hr
+        obtain ⟨y, hcur, hr⟩ := bind_ok hr
+        simp only [Except.pure, Except.ok.injEq, Prod.mk.injEq] at hr
+        obtain ⟨h1, h2⟩ := hr
+        subst h1 h2
+        have hy := src_bc_current { block := c.block, current_offset := none } h y hcur
+        refine ⟨?_, rfl⟩
+        rw [hy]
+        rfl
+      | some off =>
+        simp only [hg] at hr
+        obtain ⟨st, hloop, hr⟩ := bind_ok hr
+        have hloop' : forIn (List.range' 0 (c.block.payload_size + 1))
+            (({ block := c.block, current_offset := none } : Gen.BlockCursor), off, false)
+            (scanBody (fun k => decide (key < k)) (α := Nat)) = .ok st := hloop
+        by_cases hfin : st.2.2 = true
+        · simp only [hfin, Bool.not_true, Bool.false_eq_true, if_false] at hr
+          obtain ⟨hb, hoffst⟩ := scan_loop _ _ { block := c.block, current_offset := none } off st h hloop' hfin
+          obtain ⟨y, hcur, hr⟩ := bind_ok hr
+          simp only [Except.pure, Except.ok.injEq, Prod.mk.injEq] at hr
+          obtain ⟨h1, h2⟩ := hr
+          subst h1 h2
+          refine ⟨?_, hb⟩
+          have hy := src_bc_current st.1 (by rw [hb]; exact h) y hcur
+          simp only [List.length_range'] at hoffst
+          rw [hlen]
+          dsimp only
+          rw [scanLe_eq]
+          have hst : toBC st.1 = { toBC c with off := scanGen (toBC c).block (fun k => decide (key < k)) (c.block.payload_size + 1) off none } := by
+            show ({ block := toBlock st.1.block, off := st.1.current_offset } : Grenad.BlockCursor) = _
+            rw [hb, hoffst]
+            rfl
+          rw [hy, hst]
+        · have : st.2.2 = false := by simpa using hfin
+          simp [this, throw, throwThe, MonadExceptOf.throw, Except.bind] at hr
+
+/-! ### `move_on_key_greater_than_or_equal_to` -/
+
+/-- the model's `ge` over the search loop `bs` (it is `le` followed by a step) -/
+def geBS (bs : (Nat → Ordering) → List Nat → Except Nat Nat) (c : Grenad.BlockCursor) (key : Bytes) :
+    Grenad.BlockCursor × Option Entry :=
+  match BinSearch.leBS bs c key with
+  | (c', some (k, v)) => if k = key then (c', some (k, v)) else c'.next
+  | (c', none) => c'.first
+
+theorem ge_eq_geBS (c : Grenad.BlockCursor) (key : Bytes) (h : BinSearch.TableKeysAsc c.block) :
+    c.ge key = geBS binSearchBy' c key := by
+  unfold Grenad.BlockCursor.ge geBS
+  rw [(BinSearch.le_eq_leBS c key h).2]
+  rfl
+
+theorem src_bc_ge (c c' : Gen.BlockCursor) (h : OKBlock c.block) (key : Bytes) (r : Option (Bytes × Bytes))
+    (hr : Gen.BlockCursor.move_on_key_greater_than_or_equal_to c key = .ok (r, c')) :
+    (toBC c', r) = geBS binSearchBy' (toBC c) key ∧ c'.block = c.block := by
+  unfold Gen.BlockCursor.move_on_key_greater_than_or_equal_to at hr
+  simp only [bind, pure] at hr
+  obtain ⟨x, hle, hr⟩ := bind_ok hr
+  obtain ⟨r1, c1⟩ := x
+  obtain ⟨hl, hb1⟩ := src_bc_le c c1 h key r1 hle
+  have h1 : OKBlock c1.block := by rw [hb1]; exact h
+  unfold geBS
+  rw [← hl]
+  cases r1 with
+  | none =>
+    simp only at hr ⊢
+    obtain ⟨x, hf, hr⟩ := bind_ok hr
+    obtain ⟨r2, c2⟩ := x
+    simp only [Except.pure, Except.ok.injEq, Prod.mk.injEq] at hr
+    obtain ⟨e1, e2⟩ := hr
+    subst e1 e2
+    obtain ⟨hfirst, hb2⟩ := src_bc_first c1 c2 h1 r2 hf
+    exact ⟨hfirst, by rw [hb2, hb1]⟩
+  | some kv =>
+    obtain ⟨k, v⟩ := kv
+    simp only at hr ⊢
+    by_cases hk : k = key
+    · subst hk
+      simp only [beq_self_eq_true, if_true, Except.pure, Except.ok.injEq, Prod.mk.injEq] at hr
+      obtain ⟨e1, e2⟩ := hr
+      subst e1 e2
+      simp [hb1]
+    · have hbeq : (k == key) = false := by simp [hk]
+      simp only [hbeq, Bool.false_eq_true, if_false] at hr
+      obtain ⟨x, hn, hr⟩ := bind_ok hr
+      obtain ⟨r2, c2⟩ := x
+      simp only [Except.pure, Except.ok.injEq, Prod.mk.injEq] at hr
+      obtain ⟨e1, e2⟩ := hr
+      subst e1 e2
+      obtain ⟨hnext, hb2⟩ := src_bc_next c1 c2 h1 r2 hn
+      simp only [hk, if_false]
+      exact ⟨hnext, by rw [hb2, hb1]⟩
+
+/-! ### against the model's own operations (strictly ascending tables: every block a writer builds) -/
+
+theorem src_bc_prev_model (c c' : Gen.BlockCursor) (h : OKBlock c.block) (r : Option (Bytes × Bytes))
+    (hasc : (toBC c).block.offsets.Pairwise (· < ·))
+    (hr : Gen.BlockCursor.move_on_prev c = .ok (r, c')) : (toBC c', r) = (toBC c).prev := by
+  rw [(BinSearch.prev_eq_prevBS (toBC c) hasc).2]
+  exact (src_bc_prev c c' h r hr).1
+
+theorem src_bc_le_model (c c' : Gen.BlockCursor) (h : OKBlock c.block) (key : Bytes) (r : Option (Bytes × Bytes))
+    (hasc : BinSearch.TableKeysAsc (toBC c).block)
+    (hr : Gen.BlockCursor.move_on_key_lower_than_or_equal_to c key = .ok (r, c')) :
+    (toBC c', r) = (toBC c).le key := by
+  rw [(BinSearch.le_eq_leBS (toBC c) key hasc).2]
+  exact (src_bc_le c c' h key r hr).1
+
+theorem src_bc_ge_model (c c' : Gen.BlockCursor) (h : OKBlock c.block) (key : Bytes) (r : Option (Bytes × Bytes))
+    (hasc : BinSearch.TableKeysAsc (toBC c).block)
+    (hr : Gen.BlockCursor.move_on_key_greater_than_or_equal_to c key = .ok (r, c')) :
+    (toBC c', r) = (toBC c).ge key := by
+  rw [ge_eq_geBS (toBC c) key hasc]
+  exact (src_bc_ge c c' h key r hr).1
 
 end Grenad.SrcTie
